@@ -697,6 +697,10 @@ fn stmt_expr_variants(s: &Stmt) -> Vec<Stmt> {
                 }
             }
         }
+        Stmt::Throw(ThrowKind::Num(e)) => {
+            out.push(Stmt::Throw(ThrowKind::Str(1)));
+            out.extend(expr_variants(e).into_iter().map(|x| Stmt::Throw(ThrowKind::Num(x))));
+        }
         Stmt::Throw(ThrowKind::Typed(k, e)) => {
             out.push(Stmt::Throw(ThrowKind::Str(1)));
             out.extend(
@@ -871,7 +875,7 @@ fn calls_func(b: &Block, func: usize) -> bool {
             | Stmt::Expr(e) => in_expr(e, func),
             Stmt::AssignList(es) => es.iter().any(|e| in_expr(e, func)),
             Stmt::AssignStr(ps) => ps.iter().any(|p| matches!(p, StrPart::Int(e) if in_expr(e, func))),
-            Stmt::Throw(ThrowKind::Typed(_, e)) => in_expr(e, func),
+            Stmt::Throw(ThrowKind::Typed(_, e)) | Stmt::Throw(ThrowKind::Num(e)) => in_expr(e, func),
             Stmt::If(c, t, e) => {
                 (match c {
                     Cond::Eq(x, _) | Cond::Gt(x, _) => in_expr(x, func),
